@@ -79,18 +79,43 @@ def judge_points(version, le, b, fresh=False):
     return out, p
 
 
-def judge_nodes(version):
+def judge_nodes(version, t=None):
     """every node: equals the table entry or the floor where the entry is <= 0"""
     T = TR.load(version)
     lax = T["pexit_axes"]["log_e_nu"]
     bax = T["pexit_axes"]["beta_rad"]
     L, B = np.meshgrid(lax, bax, indexing="ij")
-    t = taus(version)
+    t = taus(version) if t is None else t
     p = np.asarray(t.tau_exit_prob(B.ravel().copy(), L.ravel().copy())).reshape(L.shape)
     tab = T["pexit"]
     exp = np.where(tab <= 0, FLOOR, tab)
     bad = ~(np.abs(p - exp) <= 1e-12 * exp)
     return [("node_value", (int(i), int(j)), exp[i, j], p[i, j]) for i, j in zip(*np.where(bad))], tab
+
+
+SPELLINGS = [("int", int), ("float", float), ("numpy int", np.int64), ("padded string", lambda v: f" {v} "), ("bytes", lambda v: str(v).encode())]
+
+
+def judge_version_spellings(version):
+    """a table version given in another spelling than the plain string is refused (by the configuration or when the
+    table is looked up) or selects that version's table, floor included"""
+    from nuspacesim.config import NssConfig, Simulation
+    from nuspacesim.simulation.taus.taus import Taus
+
+    out, n = [], 0
+    for name, f in SPELLINGS:
+        try:
+            cfg = NssConfig(simulation=Simulation(tau_shower=Simulation.NuPyPropShower(table_version=f(version))))
+            t = Taus(cfg)
+        except Exception:
+            continue
+        n += 1
+        try:
+            v, _ = judge_nodes(version, t)
+        except Exception as ex:
+            v = [("node_value", (0, 0), "values", f"{type(ex).__name__}: {str(ex)[:80]}")]
+        out += [("version_label_means_its_table", f"table_version={f(version)!r} ({name}) accepted: node {i} of table {version} = {e!r}", o) for _, i, e, o in v[:2]]
+    return out, n
 
 
 def judge_rejected(version, le):
@@ -195,6 +220,12 @@ def judge_call_forms(version):
 def run(ctx):
     from .. import forms, pipeline
 
+    for ver in (1, 2, 3):
+        v, n = judge_version_spellings(ver)
+        ctx.tick(len(SPELLINGS), ("version_spellings", ver))
+        ctx.cov["version_spellings_accepted"] = ctx.cov.get("version_spellings_accepted", 0) + n
+        for c, e, o in v:
+            ctx.violation(c, {"kind": "version_spellings", "version": ver}, e, o)
     for ver in (1, 2, 3):
         ctx.tick(96, ("call_forms", ver))
         for c, e, o in judge_call_forms(ver)[:3]:
@@ -302,6 +333,8 @@ def replay(case):
         return judge_forms(case["version"], case["forms"])
     if k == "call_forms":
         return judge_call_forms(case["version"])
+    if k == "version_spellings":
+        return judge_version_spellings(case["version"])[0]
     if k == "node":
         v, _ = judge_nodes(case["version"])
         return [(c, e, o) for c, ij, e, o in v if ij == (case["i"], case["j"])]
